@@ -3,6 +3,7 @@ package mon
 import (
 	"fmt"
 	"strings"
+	"unicode"
 
 	"verif/harness/gen"
 	"verif/harness/ref"
@@ -445,6 +446,45 @@ func c04Long(c *Ctx, idx int) {
 	}
 }
 
+// c04Runes: every format character (Cf), the separators, C1 controls, noncharacters, private-use
+// and tag characters, variation selectors and the ends of the planes - inside a raw string, a
+// quoted identifier, a JSON literal string and a JSON literal object key (where the grammar admits
+// any code point from U+0020 / U+005D upwards), and bare between tokens (where it admits none).
+func c04RuneList() []rune {
+	var out []rune
+	for _, tab := range []*unicode.RangeTable{unicode.Cf, unicode.Zl, unicode.Zp, unicode.Variation_Selector} {
+		for _, r16 := range tab.R16 {
+			for r := rune(r16.Lo); r <= rune(r16.Hi); r += rune(r16.Stride) {
+				out = append(out, r)
+			}
+		}
+		for _, r32 := range tab.R32 {
+			n := 0
+			for r := rune(r32.Lo); r <= rune(r32.Hi) && n < 8; r += rune(r32.Stride) {
+				out = append(out, r)
+				n++
+			}
+		}
+	}
+	for r := rune(0x7f); r <= 0xa0; r++ {
+		out = append(out, r)
+	}
+	out = append(out, 0xfffd, 0xfffe, 0xffff, 0x1fffe, 0x1ffff, 0x10fffe, 0x10ffff, 0xe000, 0xf8ff, 0xf0000, 0x100000, 0xd7ff, 0x0300, 0x20e3, 0x1f3fb, 0xe0001, 0xe007f, 0x2060, 0x3000, 0x1680, 0x180e, 0x2800, 0x115f, 0x3164, 0xffa0)
+	return out
+}
+
+var c04Runes = c04RuneList()
+
+func c04UnusualRunes(c *Ctx, idx int) {
+	r := string(c04Runes[idx])
+	for _, t := range []string{"'a" + r + "b'", "'" + r + "'", "\"a" + r + "b\"", "\"" + r + "\"", "`\"a" + r + "b\"`", "`{\"" + r + "\": 1}`", "x[?y == '" + r + "']", "{\"" + r + "\": a}", "a." + "\"" + r + "\"", "a" + r + "b", "a " + r + " b", r + "a", "a" + r, "a ||" + r + " b"} {
+		pr := c.CheckGrammar(t, map[string]string{"family": "unusual-runes", "rune": fmt.Sprintf("U+%04X", c04Runes[idx])})
+		if pr.Status != ref.ParseGap {
+			c.Nontrivial(t)
+		}
+	}
+}
+
 func init() {
 	Register(&Property{
 		ID:            "C04",
@@ -456,6 +496,7 @@ func init() {
 			{Name: "edits", Setup: c04Setup, N: func(c *Ctx) int { return c04BaseN(c) }, Run: c04Edits, Exhaustive: true},
 			{Name: "generated", N: func(c *Ctx) int { return tierN(c, 30000, 6000000) }, Run: c04Generated},
 			{Name: "json", N: func(c *Ctx) int { return tierN(c, 20000, 5000000) }, Run: c04JSON},
+			{Name: "unusual-runes", N: func(c *Ctx) int { return len(c04Runes) }, Run: c04UnusualRunes, Exhaustive: true},
 			{Name: "long", N: c04LongN, Run: c04Long, Exhaustive: true},
 			{Name: "json-number-text", N: c04NumN, Run: c04NumText, Exhaustive: true},
 		},
